@@ -163,6 +163,7 @@ NEST = {
     'item-group': ('\\item{', '}'), 'item-env': ('\\item\\begin{e}', '\\end{e}'), 'cmd-env': ('\\a{\\begin{e}', '\\end{e}}'),
     'env-mismatch': ('\\begin{a}', '\\end{b}'), 'open-only': ('\\begin{e}\\a{', ''), 'dollar-group': ('{$', '$}'),
     'env-arg': ('\\begin{e}[', ']\\end{e}'), 'mathenv-cmd': ('\\begin{equation}\\a{', '}\\end{equation}'),
+    'item-textbf': ('\\item\\textbf{', '}'), 'env-section': ('\\begin{e}\\section[o]{', '}\\end{e}'), 'item-label-cmd': ('\\item\\label{x}\\a[', ']'),
 }
 
 
